@@ -28,6 +28,9 @@ type killSig struct{}
 type lockState struct {
 	readers int
 	writer  bool
+	// writers blocked in Lock: as in sync.RWMutex, a pending Lock keeps new
+	// readers out (which is what makes recursive read locking a deadlock)
+	writersWaiting int
 }
 
 func (e *Exec) initSched() {
